@@ -529,3 +529,64 @@ func init() {
 			}
 		}})
 }
+
+func init() {
+	register(&Rule{ID: "P.proxy", Min: 4, Text: "every presence edit is announced: each editing method of the presence proxy (Set, Delete, Clear, Initialize of presence.Presence) hands a presence change to the change context (Context.SetPresenceChange) on every normal path — no early return skips it, in particular Clear announces a Clear even when the local data is empty (the server-built clear of a deactivated client, and a client that attached without initial presence, start from empty data and must still disappear for everyone); and in package server/packs the in-memory presences of a document are reset (ResetPresences) only on an edge where the presence-disabled flag (DocInfo.DisablePresence / PushPullOptions.DisablePresence) is true",
+		Run: func(x *Ctx) {
+			setPC := x.P.FnObj(changePkg + ".(*Context).SetPresenceChange")
+			if setPC == nil {
+				x.C.Unresolved(x.id(), "change.Context.SetPresenceChange")
+				return
+			}
+			n := 0
+			for _, name := range []string{"Set", "Delete", "Clear", "Initialize"} {
+				fn := x.fn("pkg/document/presence.(*Presence)." + name)
+				if fn == nil {
+					continue
+				}
+				n++
+				ok := false
+				for _, c := range callsToIn(fn, setPC) {
+					first := fn.Blocks[0].Instrs[0]
+					if x.P.PostDominates(c, first) || c.Block() == fn.Blocks[0] {
+						ok = true
+					}
+				}
+				x.check(ok, "func="+prog.FnName(fn)+" always-announces", x.fpos(fn), "SetPresenceChange is reached on every normal path", "a path through the method returns without announcing a presence change: the edit (or the clear of a leaving client) never reaches the peers")
+			}
+			// Clear announces the Clear type
+			if fn := x.fn("pkg/document/presence.(*Presence).Clear"); fn != nil {
+				clearC, okC := x.constStr("pkg/document/presence/inner.Clear")
+				ctF := x.P.Field("pkg/document/presence/inner.Change.ChangeType")
+				okType := false
+				if okC && ctF != nil {
+					for _, b := range fn.Blocks {
+						for _, ins := range b.Instrs {
+							if st, ok := ins.(*ssa.Store); ok && prog.FieldVar(st.Addr) == ctF {
+								if k, isK := constString(st.Val); isK && k == clearC {
+									okType = true
+								}
+							}
+						}
+					}
+					n++
+					x.check(okType, "func="+prog.FnName(fn)+" announces-type-Clear", x.fpos(fn), "the change announced is of type Clear", "Clear no longer announces a change of type Clear")
+				}
+			}
+			// server side: resets only for presence-disabled documents
+			reset := x.P.FnObj(docPkg + ".(*InternalDocument).ResetPresences")
+			optDP := x.P.Field("server/packs.PushPullOptions.DisablePresence")
+			docDP := x.P.Field(dbPkg + ".DocInfo.DisablePresence")
+			if reset != nil && optDP != nil && docDP != nil {
+				for _, fn := range x.P.FuncsIn("server/packs") {
+					for i, c := range callsToIn(fn, reset) {
+						n++
+						x.guardedSite(fmt.Sprintf("func=%s reset#%d only-if-presence-disabled", prog.FnName(fn), i+1), c, []Cmp{isTrue(vpField(optDP)), isTrue(vpField(docDP))}, nil)
+					}
+				}
+			}
+			if n < 4 {
+				x.C.Vacuous(x.id()+" sites", n, 4)
+			}
+		}})
+}
